@@ -3,12 +3,18 @@
 
 Mirrors (file → definition):
 
-* `node/call_object_method.go isCallerInClassHierarchy(ctx, target)` → `chainHas` (the two
-  `for extend != nil { … }` loops) and `inHierarchy`; the caller is read from the *type of the context*
-  (`*data.ClassMethodContext` / `*data.ClassValue`), i.e. it is the **runtime class of `$this`** (or, for a
-  static method entered through `A::m()`, the class in which the method was found), never the class whose
-  source text contains the access → `Site.ctx` (what the code looks at) is kept apart from `Site.lex` (what
-  the specification talks about);
+* `node/visibility.go isClassInHierarchy(vm, caller, target)` (before the repair `fixes/C07-1-*`:
+  `node/call_object_method.go isCallerInClassHierarchy(ctx, target)`) → `chainHas` (the two
+  `for extend != nil { … }` loops) and `inHierarchy`;
+* `node/visibility.go canAccessMember(ctx, declClass, modifier)` → `lexRule`: the caller is `scopeClassOf(ctx)`,
+  i.e. `ClassMethodContext.SelfClass` — the class in whose method table the executing method was found
+  (`lexicalClassOfMethod`, recorded by `ClassMethod.Call` on entry; closures inherit it from the context they
+  were created in) → `Site.lex`; the target is the class that declares the member (`canAccessDeclared` walks
+  up from the receiver's class to the first class that declares it) → `Site.decl`; `private` ⇒ same class,
+  `protected` ⇒ `inHierarchy`. Before the repair the caller was read from the *type of the context*
+  (`*data.ClassMethodContext` / `*data.ClassValue`), i.e. it was the **runtime class of `$this`** (or, for a
+  static method entered through `A::m()`, the class in which the method was found) → `Site.ctx`, which is
+  kept (the `hier` arms, the class-context tests of `self::` / `static::` / `parent::`);
 * the type switch of every access node on the receiver (`*data.ThisValue` = the expression is `$this`,
   `*data.ClassValue` = any other object expression) → `Recv`;
 * which test an arm performs → `Check`.  The arms are *data in the source*: the translator `extract/c07`
@@ -145,6 +151,13 @@ inductive Check where
   | classCtxOnly
   /-- `parent::m()`: class context needed, `private` ⇒ error, everything else goes through -/
   | privDenied
+  /-- `if m == private { if !canAccess…(ctx, …) { error } } else if m == protected { … }` where the callee is
+  `canAccessProperty(ctx, recv.Class, property)`, `canAccessMethod(ctx, recv.Class, name, method)` or
+  `canAccessMember(ctx, classInWhichTheMemberWasFound, m)` of `node/visibility.go`: PHP's rule applied to the
+  class whose source text contains the executing code and to the class that declares the member.
+  `gPriv`/`gProt`: the branch for that modifier exists; `needCtx`: the node also needs a class context
+  (`self::`, `static::`) -/
+  | lexical (gPriv gProt needCtx : Bool)
   /-- the translator did not find the shape it expects -/
   | shapeChanged
 deriving DecidableEq, Repr, Inhabited
@@ -181,8 +194,19 @@ def guarded (gPriv gProt : Bool) : Mod → Bool
   | .priv => gPriv
   | .prot => gProt
 
+/-- `canAccessMember(ctx, declClass, modifier)` with `scope = scopeClassOf(ctx)`: public ⇒ true; no scope ⇒
+false; private ⇒ `scope.GetName() == declClass.GetName()`; protected ⇒ `isClassInHierarchy(vm, scope, declClass)` -/
+def lexRule (H : Hier) (m : Mod) (scope : Option Name) (decl : Name) : Option Bool :=
+  match m with
+  | .pub => some true
+  | .priv => some (scope == some decl)
+  | .prot => inHierarchy H scope decl
+
 def decideCheck (H : Hier) (c : Check) (s : Site) : Out :=
   match c with
+  | .lexical gp gq nc =>
+    if nc && s.ctx.isNone then .denied
+    else if guarded gp gq s.m then Out.ofCheck (lexRule H s.m s.lex s.decl) else .allowed
   | .unchecked => .allowed
   | .hier gp gq td =>
     if guarded gp gq s.m then Out.ofCheck (inHierarchy H s.ctx (if td then s.decl else s.obj)) else .allowed
@@ -199,21 +223,40 @@ def decide (T : Table) (H : Hier) (s : Site) : Out := decideCheck H (T s.path s.
 
 /-! ### the table of the pinned tree after the C07 fixes (the generated one must equal it or be better) -/
 
-def arrowCheck : Recv → Check
+/-- what the source says after `fixes/C07-*` (second round: the `->`, dynamic-name, `A::m()`, `self::m()`,
+`static::m()`, `unset($o->p)` and `foreach` paths apply PHP's rule to the lexical class and the declaring class,
+on `$this` as on any other object; `$this[...]` looks the property up along the chain) -/
+def pinned : Table := fun p r =>
+  match p with
+  | .propRead | .propWrite | .methCall | .dynPropRead | .dynPropWrite | .dynMeth => .lexical true true false
+  | .idxRead | .idxWrite => .pubOnly
+  | .staticPropRead | .staticPropWrite => .unchecked
+  | .staticMeth => .lexical true true false
+  | .selfMeth | .staticKwMeth => .lexical true true true
+  | .selfProp | .staticKwProp => .classCtxOnly
+  | .parentMeth => .privDenied
+  | .unsetProp => .lexical true true false
+  | .unsetIdx => (match r with | .this => .unchecked | .other => .pubOnly)
+  | .iterate => .lexical true true false
+
+/-! ### the table before the second round of repairs (kept for the negation witnesses of the old behaviour) -/
+
+def arrowCheckBefore : Recv → Check
   | .this => .unchecked
   | .other => .hier true true false
 
-/-- what the source says after `fixes/C07-*` (dynamic property read, `A::m()` and `unset` test the modifier) -/
-def pinned : Table := fun p r =>
+/-- the tree at 9f27b4e / repo b997291: the caller is the runtime class of `$this`, the target the receiver's
+class, `private` = `protected`, `$this` arms test nothing -/
+def pinnedBefore : Table := fun p r =>
   match p with
-  | .propRead | .propWrite | .methCall | .dynPropRead | .dynPropWrite | .dynMeth => arrowCheck r
+  | .propRead | .propWrite | .methCall | .dynPropRead | .dynPropWrite | .dynMeth => arrowCheckBefore r
   | .idxRead => (match r with | .this => .pubOnlyOwn true | .other => .pubOnly)
   | .idxWrite => (match r with | .this => .pubOnlyOwn false | .other => .pubOnly)
   | .staticPropRead | .staticPropWrite => .unchecked
   | .staticMeth => .hier true true true
   | .selfProp | .selfMeth | .staticKwProp | .staticKwMeth => .classCtxOnly
   | .parentMeth => .privDenied
-  | .unsetProp => arrowCheck r
+  | .unsetProp => arrowCheckBefore r
   | .unsetIdx => (match r with | .this => .unchecked | .other => .pubOnly)
   | .iterate => .unchecked
 
